@@ -38,6 +38,12 @@
 #include <cpuid.h>
 #endif
 
+#ifdef SKINNY_C_VERIF
+/* Verification hook: widest vector back end that the probes may report.
+   It can only turn a detected back end off, never on. */
+int _skinny_verif_vec_limit = 256;
+#endif
+
 int _skinny_has_vec128(void)
 {
     int detected = 0;
@@ -57,6 +63,10 @@ int _skinny_has_vec128(void)
     detected = 1;
 #endif
 #endif
+#endif
+#ifdef SKINNY_C_VERIF
+    if (_skinny_verif_vec_limit < 128)
+        detected = 0;
 #endif
     return detected;
 }
@@ -97,6 +107,10 @@ int _skinny_has_vec256(void)
         }
     }
 #endif
+#endif
+#ifdef SKINNY_C_VERIF
+    if (_skinny_verif_vec_limit < 256)
+        detected = 0;
 #endif
     return detected;
 }
